@@ -67,4 +67,13 @@ struct tracked_mo : tracked {
     tracked_mo &operator=(tracked_mo &&) noexcept = default;
 };
 
+
+// a value whose construction from the caller's arguments fails: emplace-style APIs (promise(args...), queue::push(args...)) construct
+// the stored value in place from a 'bomb' and the constructor throws test_exc{code}
+struct bomb { int code; };
+struct tracked_thr : tracked {
+    using tracked::tracked;
+    tracked_thr(bomb b) : tracked((uint64_t)0) { throw test_exc{b.code}; } // the base sub-object is destroyed again by the unwinding
+};
+
 } // namespace vf
